@@ -32,12 +32,20 @@ theorem mkShape_length (vs : List V2) : (mkShape vs).length = vs.length := by
 
 theorem triangle_mode_off : Tables.TRIANGLE_MODE = false := by decide
 
+theorem planar_mkShape_length {α : Type} [Hilbert.Scalar α] (vs : List (α × α)) : (Planar.mkShape vs).length = vs.length := by
+  unfold Planar.mkShape; split <;> simp
+
+theorem place_length {α : Type} [Hilbert.Scalar α] (base : List (α × α)) (basis : α × α × α × α) (sl sr : α × α) (rot : α × α × α × α)
+    (h : Nat) (a : Hilbert.Anchor) : (Planar.place base basis sl sr rot h a).length = base.length := by
+  unfold Planar.place
+  simp only [Planar.transform, Planar.scaleBy, Planar.translate, List.length_map]
+  repeat' split
+  all_goals simp [Planar.rotate180, Planar.reflectY, Planar.translate, planar_mkShape_length]
+
 theorem pentagonVertices_length (h q : Nat) (a : Hilbert.Anchor) : (pentagonVertices h q a).length = 5 := by
   unfold pentagonVertices
-  simp only [triangle_mode_off, Bool.false_eq_true, if_false, transformShape, scaleShape, translate, List.length_map]
-  have h5 : (mkShape pentagonBase).length = 5 := by rw [mkShape_length]; simp [pentagonBase]
-  repeat' split
-  all_goals simp [rotate180, reflectY, translate, h5]
+  rw [place_length]
+  simp [triangle_mode_off, pentagonBase]
 
 theorem normalizeLongitudes_length (c : List V2) : (normalizeLongitudes c).length = c.length := by
   unfold normalizeLongitudes; simp
